@@ -54,12 +54,27 @@ def nextOf : Option Nat → Nat
 /-- `bpv7.DtnTimeNow() - window` in `uint64` arithmetic. -/
 def threshold (w now : Nat) : Nat := (now + 2 ^ 64 - w) % 2 ^ 64
 
-/-- `tpl.time < threshold && tpl.time != bpv7.DtnTimeEpoch` -/
-def dropped (w now : Nat) (k : Key) : Bool := decide (k.time < threshold w now) && k.time != 0
+/-- `t < threshold && tpl.time != bpv7.DtnTimeEpoch` for the time `t` the code compares with the threshold. -/
+def droppedAt (w now t : Nat) (k : Key) : Bool := decide (t < threshold w now) && k.time != 0
 
-/-- `IdKeeper.clean` at clock reading `now` with the retention constant `w` (same unit as DtnTime: ms). -/
+/-- The comparison of the ORIGINAL `clean`: the tuple's own creation time (`tpl.time < threshold`). -/
+def dropped (w now : Nat) (k : Key) : Bool := droppedAt w now k.time k
+
+/-- The original `IdKeeper.clean` at clock reading `now` with the retention constant `w` (unit of DtnTime: ms). -/
 def Keeper.clean (w : Nat) (m : Keeper) (now : Nat) : Keeper :=
   fun k => if dropped w now k then none else m k
+
+/-- `IdKeeper.used : map[idTuple]bpv7.DtnTime`: the clock reading of a tuple's last `update`
+(only meaningful for tuples with an entry in `data`). -/
+abbrev Used := Key → Nat
+
+def Used.set (u : Used) (k : Key) (t : Nat) : Used := fun k' => if k' = k then t else u k'
+
+/-- `IdKeeper.clean` as it is now: an entry goes when it was not USED for `w` (and is not the epoch time);
+both maps lose the entry (the `used` entry of a dropped tuple is never read again: the next `update` of
+the tuple writes it first). -/
+def Keeper.cleanU (w : Nat) (m : Keeper) (u : Used) (now : Nat) : Keeper :=
+  fun k => if droppedAt w now (u k) k then none else m k
 
 /-- The locked part of `IdKeeper.update` as one step: new map and the number written into the bundle
 (`bndl.PrimaryBlock.CreationTimestamp[1] = idk.data[tpl]`). -/
@@ -82,19 +97,21 @@ def Op.cleans (auto : Bool) : Op → Bool
   | .upd _ _ => auto
   | .clean _ => true
 
-/-- Run a script; result: final map and the numbers handed out, in order, with their tuples. -/
-def runOps (w : Nat) (auto : Bool) : Keeper → List Op → Keeper × List (Key × Nat)
-  | m, [] => (m, [])
-  | m, .upd k now :: ops =>
+/-- Run a script; result: final map and the numbers handed out, in order, with their tuples. `update` notes
+the clock reading as the tuple's last use. -/
+def runOps (w : Nat) (auto : Bool) : Keeper → Used → List Op → Keeper × List (Key × Nat)
+  | m, _, [] => (m, [])
+  | m, u, .upd k now :: ops =>
     let (m', s) := m.update k
-    let m'' := if auto then m'.clean w now else m'
-    let (mf, l) := runOps w auto m'' ops
+    let u' := u.set k now
+    let m'' := if auto then m'.cleanU w u' now else m'
+    let (mf, l) := runOps w auto m'' u' ops
     (mf, (k, s) :: l)
-  | m, .clean now :: ops => runOps w auto (m.clean w now) ops
+  | m, u, .clean now :: ops => runOps w auto (m.cleanU w u now) u ops
 
 /-- The numbers handed to tuple `κ` by a script, in order. -/
-def seqsOf (w : Nat) (auto : Bool) (κ : Key) (m : Keeper) (ops : List Op) : List Nat :=
-  ((runOps w auto m ops).2.filter (fun e => e.1 = κ)).map (·.2)
+def seqsOf (w : Nat) (auto : Bool) (κ : Key) (m : Keeper) (u : Used) (ops : List Op) : List Nat :=
+  ((runOps w auto m u ops).2.filter (fun e => e.1 = κ)).map (·.2)
 
 /-! ### The node: submissions as threads of micro-steps -/
 
@@ -110,17 +127,21 @@ structure Cfg where
   /-- `SendBundle` numbers through `IdKeeper.updateUnless(bndl, "is this ID in the store")`: inside the
       critical section the counter is incremented while the bundle's ID is taken (/repo 43cf7bc). -/
   skipKnown : Bool
+  /-- `clean` judges an entry by the time of its last use (`IdKeeper.used`), not by the tuple's creation time. -/
+  byUse : Bool
 deriving Repr, DecidableEq
 
-def Cfg.code : Cfg := ⟨true, true, 86400000, true⟩
+def Cfg.code : Cfg := ⟨true, true, 86400000, true, true⟩
+/-- Before the repair of `clean`: an entry goes when the tuple's CREATION TIME is older than the window. -/
+def Cfg.byCreationTime : Cfg := ⟨true, true, 86400000, true, false⟩
 /-- Before /repo 43cf7bc: the number of the counter is used as it is. -/
-def Cfg.noSkip : Cfg := ⟨true, true, 86400000, false⟩
+def Cfg.noSkip : Cfg := ⟨true, true, 86400000, false, false⟩
 /-- Before the D17 repair: descriptor first. -/
-def Cfg.descriptorFirst : Cfg := ⟨false, true, 86400000, false⟩
+def Cfg.descriptorFirst : Cfg := ⟨false, true, 86400000, false, false⟩
 /-- Before the D18 repair: `60*60*24` compared with milliseconds. -/
-def Cfg.window86s : Cfg := ⟨true, true, 86400, false⟩
+def Cfg.window86s : Cfg := ⟨true, true, 86400, false, false⟩
 /-- A hypothetical `update` that does not take the mutex. -/
-def Cfg.unlocked : Cfg := ⟨true, false, 86400000, false⟩
+def Cfg.unlocked : Cfg := ⟨true, false, 86400000, false, false⟩
 
 /-- One submission (a call of `Core.SendBundle`). -/
 structure Sub where
@@ -154,6 +175,8 @@ deriving Repr
 
 structure Node where
   keeper : Keeper
+  /-- `IdKeeper.used` -/
+  used : Used
   /-- `IdKeeper.mutex` -/
   holder : Option Nat
   /-- key ↦ stored bytes; newest first -/
@@ -162,8 +185,8 @@ structure Node where
   sent : List (Nat × Bundle)
   th : Nat → Th
 
-def Node.init (subs : Nat → Sub) (k0 : Keeper) : Node :=
-  ⟨k0, none, [], [], fun i => ⟨0, none, (subs i).seq0⟩⟩
+def Node.init (subs : Nat → Sub) (k0 : Keeper) (u0 : Used := fun _ => 0) : Node :=
+  ⟨k0, u0, none, [], [], fun i => ⟨0, none, (subs i).seq0⟩⟩
 
 def Node.setTh (n : Node) (i : Nat) (t : Th) : Node :=
   { n with th := fun j => if j = i then t else n.th j }
@@ -196,7 +219,10 @@ def stampSeq (c : Cfg) (n : Node) (k : Key) : Nat :=
 def exec (c : Cfg) (subs : Nat → Sub) (n : Node) (i : Nat) : Instr → Node
   | .lock => if n.holder = none then { n.bump i with holder := some i } else n
   | .read => n.setTh i { n.th i with pc := (n.th i).pc + 1, reg := n.keeper (subs i).key }
-  | .write => { n.bump i with keeper := n.keeper.set (subs i).key (nextOf (n.th i).reg) }
+  | .write =>
+    -- `idk.data[tpl] = …` and `idk.used[tpl] = bpv7.DtnTimeNow()`, both inside the critical section
+    { n.bump i with keeper := n.keeper.set (subs i).key (nextOf (n.th i).reg),
+                    used := n.used.set (subs i).key (subs i).now }
   | .stamp =>
     { n.setTh i { n.th i with pc := (n.th i).pc + 1, seq := stampSeq c n (subs i).key } with
       keeper := if c.skipKnown then n.keeper.set (subs i).key (stampSeq c n (subs i).key) else n.keeper }
@@ -204,7 +230,8 @@ def exec (c : Cfg) (subs : Nat → Sub) (n : Node) (i : Nat) : Instr → Node
   | .clean =>
     -- `clean` takes the mutex for its single access: it cannot run inside another thread's critical section
     if c.locked && n.holder.isSome then n
-    else { n.bump i with keeper := n.keeper.clean c.window (subs i).now }
+    else { n.bump i with keeper := if c.byUse then n.keeper.cleanU c.window n.used (subs i).now
+                                   else n.keeper.clean c.window (subs i).now }
   | .push =>
     -- NewBundleDescriptorFromBundle: Id := b.ID(); Sync: `!KnowsBundle(Id)` ⇒ Push, and Push ignores a known key
     let b := bundleOf subs n i
